@@ -11,7 +11,7 @@ CHECKS = {
     "C02": ("TLC model check (versions never reused, open never fails) + histories with reopen/checkpoint at every position replayed and validated by TLC (TraceSeq: C02 stability conjunct)", "5.C02"),
     "C03": ("TLC model check of CasSteps with Crash between any two steps (Inv_C03) + crash image at every libc-call boundary of real runs (LD_PRELOAD), nested, each recovered by the real code and judged by TLC", "5.C03"),
     "C06": ("hash of every cas/ file at every boundary image and after every operation, judged by TLC (C06 conjunct); model: blobs only appear by rename of flushed bytes", "5.C06"),
-    "C07": ("TLC model check (Inv_C07) + directory listing after every operation of every replayed history, compared by TLC with Live(index)", "5.C07"),
+    "C07": ("TLC model check (Inv_C07 of CasSteps; Inv_C07/Inv_C04 of CasConc over all interleavings) + directory listing after every operation of every replayed history and at the end of every explored schedule of error-free concurrent programs, compared by TLC with Live(index)", "5.C07"),
     "C08": ("orphan statistics of every crash image and of planted-garbage directories compared by TLC with Scan() over an independent directory decode; clean-up postconditions", "5.C08"),
     "C09": ("power-loss images (every boundary x every subset of files with unsynced bytes) recovered by the real code and judged by TLC with the C03 oracle", "5.C09"),
     "C10": ("every truncation offset / byte flip of the un-checkpointed log, open result compared by TLC with the longest-intact-prefix state", "5.C10"),
@@ -19,10 +19,10 @@ CHECKS = {
     "C13": ("abort as menu item of every history; TLC compares the full observation and the decoded directory before/after", "5.C13"),
     "C14": ("one injected errno at every mutating libc call of every scenario; TLC tracks per-key allowed values (fm) over the continuation and the reopen", "5.C14"),
     "C19": ("matrix creation-N x reopen-N x stored version x pre-creation on populated stores; TLC decides admitted/rejected and requires an unchanged directory", "5.C19"),
-    "C20": ("independent decoder (alpha) of the directory at every boundary; TLC evaluates well-formedness, version rules, acked-present and decode = history", "5.C20"),
+    "C20": ("independent decoder (alpha) of the directory at every libc-call boundary of sequential and fault histories and after every scheduling step of writers racing with checkpoints; TLC evaluates well-formedness, version rules, acked-present and decode = history (Recover of the model); CasConc carries the durable log (Inv_C03x)", "5.C20"),
 }
 CHECKS.update({
-    "C04": ("TLC exhaustive interleavings of CasConc (Inv_C04, Inv_C07) + real threads serialised at yield points: DFS (<=2 pre-emptions), random and TLC-generated schedules; index vs hashed cas/ listing after every scheduling step judged by TLC (TraceConc)", "5.C04"),
+    "C04": ("TLC exhaustive interleavings of CasConc (Inv_C04, Inv_C07, Inv_C03x = a kill at any instant recovers without dangling keys) + real threads serialised at yield points: DFS (<=2 pre-emptions), random and TLC-generated schedules; index vs hashed cas/ listing after every scheduling step judged by TLC (TraceConc)", "5.C04"),
     "C05": ("TLC exhaustive interleavings (Inv_C05 read monitor) + reader/writer programs on the real code under the schedule controller; TLC checks every returned value against the values observed during the call", "5.C05"),
     "C15": ("TLC deadlock check + liveness (WF) + lock-order invariant on CasConc; controller detects blocked workers in explored schedules of the real code", "5.C15"),
 })
@@ -85,9 +85,10 @@ NOTE = {"C04": CONC_NOTE, "C05": CONC_NOTE, "C15": CONC_NOTE, "C16": VEC_NOTE, "
         "C11": "kernel flock semantics trusted; 2-4 processes and up to 3 handles; racing opens are barrier-started, not exhaustively timed"}
 CONC_TECH = "TLA+ spec (CasConc) model-checked by TLC over all interleavings + schedule-controlled real threads validated against the spec by TLC (TraceConc)"
 VEC_TECH = "function transcribed in TLA+, property model-checked by TLC over the enumerated domain + TLC validation of recorded real calls (TraceVec)"
-TECH = {"C04": CONC_TECH, "C05": CONC_TECH, "C15": CONC_TECH, "C16": VEC_TECH, "C17": VEC_TECH, "C18": VEC_TECH,
+SEQCONC_TECH = "TLA+ specs (CasSteps, CasConc) model-checked by TLC + trace validation of recorded real executions: sequential histories (TraceSeq) and schedule-controlled threads (TraceConc)"
+TECH = {"C07": SEQCONC_TECH, "C08": SEQCONC_TECH, "C13": SEQCONC_TECH, "C20": SEQCONC_TECH, "C04": CONC_TECH, "C05": CONC_TECH, "C15": CONC_TECH, "C16": VEC_TECH, "C17": VEC_TECH, "C18": VEC_TECH,
         "C11": "TLA+ spec (CasLock) model-checked by TLC + TLC-generated action sequences replayed with real processes, validated by TLC (TraceLock)"}
-EXTRA_ENGINES = [{"name": "conc", "path": "/verif/lib/conccheck.py", "serves_properties": ["C04", "C05", "C15"],
+EXTRA_ENGINES = [{"name": "conc", "path": "/verif/lib/conccheck.py", "serves_properties": ["C04", "C05", "C15", "C07", "C08", "C13", "C20"],
                   "kind_free_text": "TLC model check of spec/MCConc + harness/src/conc.rs schedule controller over cassadilia::verif yield points + TLC trace validation spec/TraceConc"},
                  {"name": "vec", "path": "/verif/lib/veccheck.py", "serves_properties": ["C16", "C17", "C18"],
                   "kind_free_text": "spec/{RangeRead,BlobId,Codec}.tla + MC modules + harness/src/vecs.rs + spec/TraceVec.tla"},
